@@ -151,7 +151,7 @@ struct LibScope {
       for (size_t i = 0; i < h.n_held; ++i) {
         Exempt ex;
         const std::string aop = h.op_names[h.held[i].alloc_op], fop = h.op_names[h.held[i].free_op];
-        c19_fail("heap|global-heap-block-held-by-object|allocated-in-" + aop,
+        c19_fail("heap|global-heap-block-held-by-object",
                  std::to_string(h.held[i].bytes) + " bytes obtained from the global heap (not the supplied allocator) during '" + aop +
                  "' stayed live after the call returned and were released by the library during '" + fop + "'");
       }
@@ -427,13 +427,21 @@ template<typename F> struct Program {
     verify_all("move-assign");
   }
   // run `op` (which touches only library objects, no harness state) in a child first; true = safe to do for real
+  // Forking an ASan process is expensive (page tables), so per shard process only the first few
+  // occurrences of each operation kind and every 8th afterwards are probed; an unprobed crash is still
+  // caught, by the driver's crash attribution.  Once a kind has aborted, it is always probed.
   template<typename Fn> bool probe(const char* opkey, Fn&& op) {
+    static std::map<std::string, std::pair<uint64_t, bool>> seen;
+    bool do_probe;
+    { Exempt e; auto& st = seen[opkey]; do_probe = st.second || st.first < 4 || st.first % 8 == 0; st.first++; }
+    if (!do_probe) return true;
     std::string report;
     const std::string died = probe_in_child(op, report);
     if (died.empty()) return true;
     checked();
     fail(fam + "|" + opkey + "|aborts|" + died, std::string("the operation kills the process (run in a forked child, skipped in the parent): ") + report + " trace=" + trace);
     count(fam + ".probe_caught_abort");
+    { Exempt e; seen[opkey].second = true; }
     return false;
   }
   void op_self_assign(S* x) {
